@@ -142,6 +142,26 @@ def model_check(scn, workdir, fixes=None, timeout=60, workers=4, name='MC', simu
     return res
 
 
+def model_liveness(scn, workdir, fixes=None, timeout=120, workers=2, name='ML'):
+    """TLC liveness check of the scenario's model (weak fairness per process => eventually quiescent)"""
+    fixes = FIXES if fixes is None else fixes
+    tv.copy_specs(workdir)
+    scen.write_liveness(scn, fixes, workdir, name)
+    out, rc, wall = tv.run_tlc(workdir, name, workers=workers, timeout=timeout, heap='6g')
+    res = {'wall': wall, 'checked': False, 'livelock': False, 'timeout': rc == 124}
+    if 'Model checking completed. No error has been found' in out:
+        res['checked'] = True
+    elif re.search(r'Temporal propert\w+ .*violated', out):
+        res['checked'] = True
+        res['livelock'] = True
+        # the labels of the processes that move inside the cycle
+        back = out[out.find('constitutes a counter-example'):]
+        res['cycle_labels'] = sorted(set(re.findall(r'<(\w+)\(', back)))[:40]
+    elif rc != 124:
+        res['error'] = out[-1500:]
+    return res
+
+
 def write_scenario(scn, workdir, name=None):
     path = os.path.join(workdir, (name or scn['name']) + '.json')
     os.makedirs(workdir, exist_ok=True)
